@@ -25,6 +25,7 @@ import PV.Driver.AlgoOps
 import PV.Driver.SyntaxOps
 import PV.Driver.DispatchOps
 import PV.Driver.CseTableOps
+import PV.Driver.ParserTableOps
 /-
   Driver operations: one request S-expression in, one reply S-expression out.
 -/
@@ -222,6 +223,7 @@ def handlers : List (Sexp → Option Sexp) :=
    , handleEvalTable
    , handleLex
    , handleCseTable
+   , handleParserTable
    -- HANDLERS
   ]
 
